@@ -120,7 +120,7 @@ func runMeasure(e *simcore.Env, tp *simcore.Tape) {
 		}
 		for i, k := 0, tp.Range(2, 8); i < k; i++ {
 			if tp.Weighted(3, 2) == 0 {
-				rows := m.GenBatch(tp, wl.BatchOpts{BaseMs: now + int64(i)*1000, SpanMs: int64([]int{1000, 3600_000, 2 * 86400_000}[tp.Choose(3)]), MaxRows: 120, MaxSeries: 5, Plain: plain, SmallField: plain, NullOK: !plain, NullTagRate: nullRate, NullFieldRate: nullFieldRate, Collide: tp.Bool(1, 4)}, i)
+				rows := m.GenBatch(tp, wl.BatchOpts{BaseMs: now + int64(i)*1000, SpanMs: int64([]int{1000, 3600_000, 2 * 86400_000}[tp.Choose(3)]), MaxRows: 120, MaxSeries: 5, Plain: plain, SmallField: plain, NullOK: !plain, NullTagRate: nullRate, NullFieldRate: nullFieldRate, EmptyStrRate: nullRate, Collide: tp.Bool(1, 4)}, i)
 				m.Ack(rows)
 				hist = append(hist, mstep{rows: rows})
 			} else {
